@@ -811,3 +811,260 @@ Proof.
   specialize (H w_oracle None true FHtml None w_up_state "" w_facts "config/merchants.rules" "[Mine]" eq_refl eq_refl).
   destruct H as [H|[[H _]|[H _]]]; try (vm_compute in H; discriminate H); apply R; discriminate.
 Qed.
+
+(* ================================================================== every effect lies inside the write set *)
+Lemma mem_app x a b : mem x (app a b) = (mem x a || mem x b)%bool.
+Proof. induction a as [|y r IH]; simpl; [reflexivity|]. destruct (String.eqb x y); [reflexivity | exact IH]. Qed.
+
+Lemma mem_true_In x l : In x l -> mem x l = true.
+Proof. apply mem_In. Qed.
+
+Lemma pair_mem_In a b l : In (a, b) l -> pair_mem a b l = true.
+Proof.
+  intros H. unfold pair_mem. apply existsb_exists. exists (a, b). split; [exact H|]. simpl.
+  now rewrite !String.eqb_refl.
+Qed.
+
+Lemma mig_effects_exact o root st e :
+  In e (mig_effects o root st) ->
+  (exists r, e = EWrite OMigrate (root ++ P_RULES) r) \/ e = ERename OMigrate (root ++ P_CSV) (root ++ P_BAK)
+  \/ e = EAppend OMigrate (root ++ P_SETTINGS) MIG_SUFFIX.
+Proof.
+  unfold mig_effects. destruct (fget st (root ++ P_CSV)) as [c|]; [|intros []].
+  destruct (convert o c) as [r|]; [|intros []].
+  intros H. apply in_app_or in H. destruct H as [H|H].
+  - destruct H as [<-|[<-|[]]]; [left; now exists r | right; now left].
+  - destruct (fget st (root ++ P_SETTINGS)) as [sc|]; [|destruct H].
+    destruct (contains "merchants_file:" sc); [destruct H|]. destruct H as [<-|[]]. right; now right.
+Qed.
+
+Ltac ws_cbn := cbn [effect_within op_within ws_union ws_migration ws_empty ws_report ws_create ws_append ws_rename ws_mkdir].
+
+Lemma mig_within root w e o st :
+  In e (mig_effects o root st) -> effect_within (ws_union w (ws_migration root)) e = true.
+Proof.
+  intros H. apply mig_effects_exact in H. destruct H as [[r ->] | [ -> | -> ]]; ws_cbn.
+  - apply orb_true_iff. right. apply mem_true_In. apply in_or_app. right. now left.
+  - apply pair_mem_In. apply in_or_app. right. now left.
+  - apply mem_true_In. apply in_or_app. right. now left.
+Qed.
+
+Lemma mig_within_l root w e o st :
+  In e (mig_effects o root st) -> effect_within (ws_union (ws_migration root) w) e = true.
+Proof.
+  intros H. apply mig_effects_exact in H. destruct H as [[r ->] | [ -> | -> ]]; ws_cbn.
+  - apply orb_true_iff. right. apply mem_true_In. apply in_or_app. left. now left.
+  - apply pair_mem_In. apply in_or_app. left. now left.
+  - apply mem_true_In. apply in_or_app. left. now left.
+Qed.
+
+Lemma mkdirs_until_in st ds e : In e (mkdirs_until st ds) -> exists d, e = EMkdir OInitDirs d /\ In d ds.
+Proof.
+  induction ds as [|d r IH]; simpl; [intros []|].
+  destruct (fexists st d); [intros []|]. intros H. apply in_app_or in H. destruct H as [H|H].
+  - destruct (isdir st d); [destruct H|]. destruct H as [<-|[]]. exists d. split; [reflexivity | now left].
+  - destruct (IH H) as [d' [A B]]. exists d'. split; [exact A | now right].
+Qed.
+
+Lemma up_effects_within o cfg m emb f out st e :
+  In e (effects o (Up cfg m emb f out) st) -> effect_within (write_set o (Up cfg m emb f out) st) e = true.
+Proof.
+  unfold effects, run_log, stages, up_stages, write_set.
+  destruct (up_context o cfg st) as [[root s]|]; [|intros []].
+  rewrite !run_stages_cons. cbn [snd run_stages]. rewrite app_nil_r. intros H. apply in_app_or in H.
+  destruct H as [H|H].
+  - destruct (m && csv_format st root s)%bool; [|destruct H]. now apply (mig_within root _ e o st).
+  - match type of H with In _ (if (pipeline_ok o ?s1 && _)%bool then _ else _) => set (st1 := s1) in * end.
+    destruct (pipeline_ok o st1); simpl in H; [|destruct H].
+    destruct (is_html f) eqn:F; [|destruct H].
+    unfold report_effects in H.
+    assert (W : forall e0, In e0 (map (fun p => EWrite OReport p (report o st1 p)) (report_files root s emb out)) ->
+                effect_within (ws_union {| ws_report := report_files root s emb out; ws_create := []; ws_append := [];
+                                           ws_rename := [];
+                                           ws_mkdir := match out with None => [root ++ sf_output_dir s] | Some _ => [] end |}
+                                        (if (m && csv_format st root s)%bool then ws_migration root else ws_empty)) e0 = true).
+    { intros e0 H0. apply in_map_iff in H0. destruct H0 as [p [<- Hp]]. ws_cbn.
+      apply orb_true_iff. left. apply mem_true_In. apply in_or_app. now left. }
+    destruct out as [[d n]|].
+    + destruct (String.eqb d "" || isdir st1 d)%bool; [now apply W | destruct H].
+    + destruct (fexists st1 (root ++ sf_output_dir s)); [destruct H|].
+      apply in_app_or in H. destruct H as [H|H]; [|now apply W].
+      destruct (isdir st1 (root ++ sf_output_dir s)); [destruct H|]. destruct H as [<-|[]].
+      ws_cbn. apply mem_true_In. apply in_or_app. left. now left.
+Qed.
+
+(* a starter path that exists before init still exists when the starter stage looks at it *)
+Lemma init_existing_survives o root st p c :
+  fget st p = Some c -> In p (starter_paths root) ->
+  fexists (apply_all (if init_migrates st root then mig_effects o root st else []) st) p = true.
+Proof.
+  intros Hp Hin. unfold fexists.
+  destruct (init_migrates st root) eqn:M; [|unfold apply_all; simpl; now rewrite Hp].
+  assert (K : kept root (apply_all (mig_effects o root st) st) p c).
+  { apply mig_kept; [exact Hp | |].
+    - intros ->. unfold starter_paths in Hin. destruct Hin as [E|[E|[E|[E|[]]]]]; kill_path_eq.
+    - intros ->. unfold init_migrates in M. destruct (fget st (root ++ P_CSV)); [|discriminate M].
+      rewrite Hp in M. discriminate M. }
+  destruct K as [K|[[_ [s K]]|[-> _]]]; [now rewrite K | now rewrite K |].
+  unfold starter_paths in Hin. destruct Hin as [E|[E|[E|[E|[]]]]]; kill_path_eq.
+Qed.
+
+Lemma init_effects_within o t st e :
+  In e (effects o (Init t) st) -> effect_within (write_set o (Init t) st) e = true.
+Proof.
+  unfold effects, run_log, stages, init_stages, write_set.
+  set (rd := init_rootdir t st). set (root := prefix_of rd).
+  rewrite !run_stages_cons. cbn [snd run_stages fst]. rewrite app_nil_r.
+  set (st1 := apply_all (if init_migrates st root then mig_effects o root st else []) st).
+  set (st2 := apply_all (mkdirs_until st1 (init_dirs rd)) st1).
+  intros H. apply in_app_or in H. destruct H as [H|H].
+  - (* migration *)
+    destruct (init_migrates st root) eqn:M; [|destruct H].
+    unfold init_migrates in M. unfold fexists.
+    destruct (fget st (root ++ P_CSV)); [|discriminate M].
+    destruct (fget st (root ++ P_RULES)); [discriminate M|]. simpl andb. cbv iota.
+    now apply (mig_within_l root _ e o st).
+  - apply in_app_or in H. destruct H as [H|H].
+    + (* directories *)
+      apply mkdirs_until_in in H. destruct H as [d [-> Hd]]. ws_cbn.
+      apply mem_true_In. apply in_or_app. now right.
+    + apply in_app_or in H. destruct H as [H|H].
+      * (* starter files: only those missing before the command *)
+        destruct (init_blocked st2 rd); [destruct H|].
+        apply in_map_iff in H. destruct H as [pc [<- Hpc]]. apply filter_In in Hpc. destruct Hpc as [Hin Hmiss].
+        ws_cbn. apply orb_true_iff. right. apply mem_true_In. apply in_or_app. right.
+        apply filter_In. split.
+        -- change [root ++ P_SETTINGS; root ++ P_RULES; root ++ P_VIEWS; root ++ P_GIT] with (starter_paths root).
+           rewrite <- (starters_paths o). now apply in_map.
+        -- destruct (fget st (fst pc)) as [c|] eqn:E; [|unfold fexists; now rewrite E].
+           exfalso. assert (Hs : In (fst pc) (starter_paths root))
+             by (rewrite <- (starters_paths o); now apply in_map).
+           pose proof (init_existing_survives o root st _ _ E Hs) as S. fold st1 in S.
+           assert (E2 : fexists st2 (fst pc) = fexists st1 (fst pc)).
+           { unfold fexists, st2. rewrite apply_all_untouched; [reflexivity|].
+             intros e0 He0. apply mkdirs_until_shape in He0. destruct He0 as [d ->]. intros []. }
+           rewrite E2, S in Hmiss. discriminate Hmiss.
+      * (* views_file line *)
+        match type of H with In _ (if init_blocked ?s3 _ then _ else _) => set (st3 := s3) in * end.
+        destruct (init_blocked st3 rd); [destruct H|].
+        destruct (fget st3 (root ++ P_SETTINGS)) as [sc|]; [|destruct H].
+        destruct (fget st3 (root ++ P_VIEWS)); [|destruct H].
+        destruct (contains "views_file:" sc); [destruct H|]. destruct H as [<-|[]].
+        ws_cbn. apply mem_true_In. apply in_or_app. right. now left.
+Qed.
+
+Lemma effects_within_write_set o c st e :
+  In e (effects o c st) -> effect_within (write_set o c st) e = true.
+Proof.
+  destruct c; try (intros []); [apply up_effects_within | apply init_effects_within].
+Qed.
+
+(* the write set of a read-only command consists of its report files and output directory only *)
+Lemma readonly_write_set o c st :
+  readonly c = true ->
+  ws_create (write_set o c st) = [] /\ ws_append (write_set o c st) = [] /\ ws_rename (write_set o c st) = [] /\
+  ws_report (write_set o c st) = report_paths o c st.
+Proof.
+  destruct c as [cfg m emb f out| | | |file| | | |t]; simpl; intros Hro; try (repeat split; reflexivity); [|discriminate Hro].
+  apply negb_true_iff in Hro. subst m.
+  destruct (up_context o cfg st) as [[root s]|]; [|repeat split; reflexivity].
+  destruct (is_html f); simpl; repeat split; try reflexivity; now rewrite app_nil_r.
+Qed.
+
+(* ================================================================== which budget a spelling designates *)
+Definition clean (c : string) : Prop := c <> "" /\ c <> "." /\ c <> "..".
+
+Lemma step_clean stk c : clean c -> step_comp stk c = c :: stk.
+Proof.
+  intros [A [B C]]. unfold step_comp.
+  destruct (String.eqb_spec c ""); [contradiction|]. destruct (String.eqb_spec c "."); [contradiction|].
+  destruct (String.eqb_spec c ".."); [contradiction | reflexivity].
+Qed.
+
+Lemma normalize_clean l : forall stk, Forall clean l -> normalize_from stk l = (rev l ++ stk)%list.
+Proof.
+  induction l as [|c r IH]; intros stk H; [reflexivity|]. inversion H; subst.
+  unfold normalize_from in *. simpl. rewrite step_clean by assumption. rewrite IH by assumption.
+  now rewrite <- app_assoc.
+Qed.
+
+Lemma normalize_app stk a b : normalize_from stk (a ++ b)%list = normalize_from (normalize_from stk a) b.
+Proof. unfold normalize_from. apply fold_left_app. Qed.
+
+(* a trailing slash ("x/" splits into [...; ""]), a trailing or leading ".", an empty component do not matter *)
+Lemma resolve_trailing_slash cwd ab arg : resolve cwd ab (arg ++ [""])%list = resolve cwd ab arg.
+Proof. unfold resolve. now rewrite normalize_app. Qed.
+Lemma resolve_trailing_dot cwd ab arg : resolve cwd ab (arg ++ ["."])%list = resolve cwd ab arg.
+Proof. unfold resolve. now rewrite normalize_app. Qed.
+Lemma resolve_leading_dot cwd arg : resolve cwd false ("." :: arg) = resolve cwd false arg.
+Proof. reflexivity. Qed.
+Lemma resolve_double_slash cwd ab a b : resolve cwd ab (a ++ "" :: b)%list = resolve cwd ab (a ++ b)%list.
+Proof. unfold resolve. now rewrite !normalize_app. Qed.
+(* going down into a folder and back up *)
+Lemma resolve_down_up cwd ab a x b : clean x -> resolve cwd ab (a ++ x :: ".." :: b)%list = resolve cwd ab (a ++ b)%list.
+Proof.
+  intros Hx. unfold resolve. rewrite !normalize_app. unfold normalize_from. cbn [fold_left].
+  rewrite (step_clean _ x Hx). reflexivity.
+Qed.
+
+Lemma resolve_relative_clean cwd arg : Forall clean cwd -> Forall clean arg -> resolve cwd false arg = (cwd ++ arg)%list.
+Proof.
+  intros _ Ha. unfold resolve. rewrite normalize_clean by exact Ha. now rewrite rev_app_distr, !rev_involutive.
+Qed.
+Lemma resolve_absolute_clean cwd arg : Forall clean arg -> resolve cwd true arg = arg.
+Proof. intros Ha. unfold resolve. rewrite normalize_clean by exact Ha. now rewrite app_nil_r, rev_involutive. Qed.
+
+Lemma strip_prefix_app base l : strip_prefix base (base ++ l)%list = Some l.
+Proof. induction base as [|x r IH]; simpl; [reflexivity|]. now rewrite String.eqb_refl. Qed.
+
+(* whatever the spelling and the working directory: if the argument resolves to <budget dir>/rr/config, the
+   designated budget is the one with prefix rr/ *)
+Lemma designate_resolved base cwd ab arg rr :
+  resolve cwd ab arg = (base ++ rr ++ ["config"])%list -> designate base cwd ab arg = Some (join_prefix rr).
+Proof.
+  intros H. unfold designate. rewrite H, strip_prefix_app. rewrite rev_app_distr. simpl. now rewrite rev_involutive.
+Qed.
+
+(* the spellings the CLI is used with all designate the same budget *)
+Lemma designation_spellings base rr :
+  Forall clean base -> Forall clean rr ->
+  let target := Some (join_prefix rr) in
+  let cfg := (rr ++ ["config"])%list in
+  designate base base false cfg = target /\                                  (* config | tally/config *)
+  designate base base false (cfg ++ [""])%list = target /\                   (* config/ *)
+  designate base base false ("." :: cfg) = target /\                         (* ./config *)
+  designate base base false ("." :: cfg ++ [""])%list = target /\           (* ./config/ *)
+  designate base (base ++ cfg)%list false ["."] = target /\                  (* .  from inside the config directory *)
+  designate base (base ++ cfg)%list false [] = target /\
+  (forall other, designate base other true (base ++ cfg)%list = target) /\    (* absolute, from anywhere *)
+  (forall other, designate base other true (base ++ cfg ++ [""])%list = target) /\
+  (forall parent name, base = (parent ++ [name])%list ->
+     designate base parent false (name :: cfg) = target /\                   (* <folder>/config from the parent *)
+     designate base parent false (name :: cfg ++ [""])%list = target).
+Proof.
+  intros Hb Hr target cfg.
+  assert (Hc : Forall clean cfg).
+  { apply Forall_app. split; [exact Hr|]. constructor; [|constructor]. repeat split; discriminate. }
+  assert (R0 : resolve base false cfg = (base ++ rr ++ ["config"])%list) by now apply resolve_relative_clean.
+  assert (A0 : forall other, resolve other true (base ++ cfg)%list = (base ++ rr ++ ["config"])%list).
+  { intros other. apply resolve_absolute_clean. apply Forall_app. now split. }
+  repeat split.
+  - now apply designate_resolved.
+  - apply designate_resolved. now rewrite resolve_trailing_slash.
+  - now apply designate_resolved.
+  - apply designate_resolved. rewrite app_comm_cons, resolve_trailing_slash. exact R0.
+  - apply designate_resolved. change ["."] with ([] ++ ["."])%list. rewrite resolve_trailing_dot.
+    rewrite resolve_relative_clean; [now rewrite app_nil_r | apply Forall_app; now split | constructor].
+  - apply designate_resolved.
+    rewrite resolve_relative_clean; [now rewrite app_nil_r | apply Forall_app; now split | constructor].
+  - intros other. apply designate_resolved. apply A0.
+  - intros other. apply designate_resolved. rewrite app_assoc, resolve_trailing_slash. apply A0.
+  - subst base. apply designate_resolved.
+    apply Forall_app in Hb. destruct Hb as [Hp Hn].
+    rewrite resolve_relative_clean; [now rewrite <- app_assoc | exact Hp |].
+    inversion Hn; subst. now constructor.
+  - subst base. apply designate_resolved. rewrite app_comm_cons, resolve_trailing_slash.
+    apply Forall_app in Hb. destruct Hb as [Hp Hn].
+    rewrite resolve_relative_clean; [now rewrite <- app_assoc | exact Hp |].
+    inversion Hn; subst. now constructor.
+Qed.
